@@ -36,6 +36,7 @@ import (
 	"io"
 	"os"
 	"path/filepath"
+	"strings"
 	"sync"
 	"syscall"
 
@@ -237,8 +238,15 @@ func (r *receiver) run(ctx context.Context) error {
 				var metaOnly bool
 				if metadataTransfer {
 					if path == metadataPath {
-						// the entry is not transferred but it still occupies an id
+						// the entry is not transferred but it still occupies an id, and the
+						// validators have to know it for its children and its hard links
 						i++
+						if err := r.orderValidator.HandleChange(ChangeKindAdd, path, &StatInfo{p.Stat}, nil); err != nil {
+							return err
+						}
+						if err := r.hlValidator.HandleChange(ChangeKindAdd, path, &StatInfo{p.Stat}, nil); err != nil {
+							return err
+						}
 						continue
 					}
 					n := p.Stat.SizeVT()
@@ -248,7 +256,8 @@ func (r *receiver) run(ctx context.Context) error {
 					if err != nil {
 						return err
 					}
-					if !r.metadataOnly(path, p.Stat) {
+					if !r.metadataOnly(path, p.Stat) || strings.HasPrefix(path, metadataPath+string(filepath.Separator)) {
+						// (nothing can be created below the name of the listing file)
 						metaOnly = true
 					}
 				}
